@@ -151,6 +151,28 @@ def dump_sub(sn, sub):
     return out
 
 
+def fresp_dump(H, w):
+    """frequency-response read-out of a transfer function: through the generic H(jomega) at omega = w ('g')
+    and through the constant H(j w) ('c'): real, imag, magnitude^2, magnitude e^{j phase}, 10^(dB/10), sign of magnitude"""
+    from lcapy import jomega
+    from lcapy.sym import omegasym
+    out = {}
+    for tag, X, fs in (('g', H(jomega), {omegasym: w}), ('c', H(j * w), None)):
+        mag, ph, db = sp.sympify(X.magnitude.sympy), sp.sympify(X.phase.sympy), sp.sympify(X.dB.sympy)
+        d = {'re': gq(X.real, fs), 'im': gq(X.imag, fs), 'mag2': gq(mag ** 2, fs),
+             'polar': gq(mag * sp.exp(sp.I * ph), fs), 'db10': gq(sp.Integer(10) ** (db / 10), fs),
+             'abs2': gq(sp.sympify(X.abs.sympy) ** 2, fs), 'angle_same': bool(sp.simplify(sp.sympify(X.angle.sympy) - ph) == 0),
+             'deg': gq(sp.sympify(X.phase_degrees.sympy) * sp.pi / 180 - ph, fs)}
+        mv = mag.subs(fs) if fs else mag
+        if d['db10'] is None and d['mag2'] == '0/1,0/1':
+            dv = db.subs(fs) if fs else db
+            if dv in (-sp.oo, sp.zoo) or sp.simplify(dv) in (-sp.oo, sp.zoo):
+                d['db10'] = '0/1,0/1'          # |H| = 0: dB is -infinity, 10^(dB/10) = 0
+        d['mag_nonneg'] = bool(sp.N(mv, 30) >= 0)
+        out[tag] = d
+    return out
+
+
 def mk(lines):
     c = Circuit()
     for l in lines:
@@ -319,6 +341,11 @@ def run_circuit(case):
                         H = c.transfer(*case['transfer'])
                     out['transfer'] = gq(H(j * w))
                     out['transfer_s'] = gq(H, sub)
+                    if case.get('fresp', True):
+                        try:
+                            out['fresp'] = fresp_dump(H, w)
+                        except Exception as e:
+                            out['fresp'] = {'error': type(e).__name__ + ': ' + str(e)[:120]}
                 except CpuTimeout as e:
                     out['transfer'] = {'error': 'hang: transfer() used more than its CPU budget', 'hang': True, 'where': e.where}
                 except Exception as e:
@@ -336,7 +363,12 @@ def run_circuit(case):
 
 def run_phasor(case):
     ex = case['expr']
-    p = phasor(ex)
+    try:
+        p = phasor(ex)
+    except ValueError as e:
+        if 'Expecting an AC signal' in str(e) or 'not sin/cos' in str(e):
+            return {'refused': str(e)[:160]}
+        raise
     w = sp.nsimplify(sp.sympify(getattr(p.omega, 'sympy', p.omega)))
     res = {'P': gq(p), 'omega': q(w) if w.is_Rational else None}
     tt = p.time().sympy
@@ -372,6 +404,38 @@ def run_phasor(case):
     return res
 
 
+def run_symphase(case):
+    """ac sources with a symbolic phase phi: every reported phasor must be exp(j phi) times the one obtained
+    with phase 0 (single-frequency circuits whose sources all carry the same phi).  40-digit evaluation at phi = 3/7."""
+    c1 = mk([l.replace('PHI', 'phi') for l in case['netlist']])
+    c0 = mk([l.replace('PHI', '0') for l in case['netlist']])
+    phi = sp.Symbol('phi')
+    bad = []
+    n = 0
+    for nm, e in c1.elements.items():
+        if e.nosim or e.ignore or e.type in ('K', 'W', 'O', 'P'):
+            continue
+        for attr in ('V', 'I'):
+            try:
+                s1, s0 = getattr(c1[nm], attr), getattr(c0[nm], attr)
+            except Exception:
+                continue
+            k1 = {str(k): v for k, v in s1.items()}
+            k0 = {str(k): v for k, v in s0.items()}
+            if set(k1) != set(k0):
+                bad.append('%s.%s: kinds %s vs %s' % (nm, attr, sorted(k1), sorted(k0)))
+                continue
+            for k in k1:
+                if not hasattr(k1[k], 'omega') or not hasattr(k0[k], 'omega'):
+                    continue      # not a phasor (e.g. the time-domain kind of a circuit without reactive components)
+                d = sp.sympify(k1[k].sympy) - sp.exp(sp.I * phi) * sp.sympify(k0[k].sympy)
+                d = d.subs({x: sp.Rational(3, 7) for x in d.free_symbols})
+                n += 1
+                if not bool(abs(sp.N(d, 40, chop=True)) < sp.Float('1e-25')):
+                    bad.append('%s.%s[%s] = %s, expected exp(j phi) * %s' % (nm, attr, k, k1[k], k0[k]))
+    return {'compared': n, 'bad': bad[:5]}
+
+
 def run_ode(case):
     """series RC / RL / RLC driven by V1 (nodes 1-0): substitute the reconstructed time-domain
     response into the circuit's differential equation"""
@@ -405,6 +469,8 @@ def run(case):
         return run_phasor(case)
     if case.get('mode') == 'ode':
         return run_ode(case)
+    if case.get('mode') == 'symphase':
+        return run_symphase(case)
     return run_circuit(case)
 
 
